@@ -6,6 +6,11 @@ import os
 
 
 def fn(a, b):
+    if os.environ.get("XV_C16_SLOW") and b == 0:
+        # (set for scripts that grow with a worker pool) the first case of every batch takes longer than the
+        # second, so that the cases complete in an order different from the batch order
+        import time
+        time.sleep(0.25)
     log = os.environ.get("XV_C16_LOG")
     if log:
         fd = os.open(log, os.O_WRONLY | os.O_APPEND | os.O_CREAT, 0o644)
